@@ -19,22 +19,72 @@ static std::uint8_t spec_mul(std::uint8_t a, std::uint8_t b) {   // carry-less p
     for (int i = 0; i < 8; ++i) { if ((b >> i) & 1u) r ^= x; x <<= 1; if (x & 0x100u) x ^= 0x11Du; }
     return static_cast<std::uint8_t>(r);
 }
-extern "C" void h_c10_field(unsigned long) {
-    static const auto exp = build_exp_table(); static const auto log = build_log_table(exp);
-    const std::uint8_t a = nondet_u8("a"), b = nondet_u8("b");
-    const std::uint8_t m = gf_mul(a, b, exp, log);
-    verif_assert(m == spec_mul(a, b), "C10: gf_mul is multiplication in GF(2^8) mod 0x11D");
-    verif_assert(gf_add(a, b) == static_cast<std::uint8_t>(a ^ b), "C10: gf_add is XOR");
-    if (b != 0) {
-        const std::uint8_t q = gf_div(a, b, exp, log);
-        verif_assert(spec_mul(q, b) == a, "C10: gf_div is the inverse of gf_mul");
-        verif_reach("div");
+// The field kernels are internal helpers (anonymous namespace). They are checked when they exist with this shape; a refactor that
+// removes or renames them leaves the observable-level jobs (combine-spec, round trip) to decide the arithmetic.
+template <class... A> static bool field_kernels_present(A... a) { return requires { gf_mul(a...); gf_div(a...); build_exp_table(); }; }
+template <class T> static void field_job(T a, T b) {
+    if constexpr (requires { gf_mul(a, b, build_exp_table(), build_log_table(build_exp_table())); gf_div(a, b, build_exp_table(), build_log_table(build_exp_table())); gf_add(a, b); }) {
+        static const auto exp = build_exp_table(); static const auto log = build_log_table(exp);
+        const std::uint8_t m = gf_mul(a, b, exp, log);
+        verif_assert(m == spec_mul(a, b), "C10: gf_mul is multiplication in GF(2^8) mod 0x11D");
+        verif_assert(gf_add(a, b) == static_cast<std::uint8_t>(a ^ b), "C10: gf_add is XOR");
+        if (b != 0) {
+            const std::uint8_t q = gf_div(a, b, exp, log);
+            verif_assert(spec_mul(q, b) == a, "C10: gf_div is the inverse of gf_mul");
+            verif_reach("div");
+        } else {
+            bool threw = false;
+            try { (void)gf_div(a, b, exp, log); } catch (const std::invalid_argument&) { threw = true; }
+            verif_assert(threw, "C10: division by zero is an invalid-argument error");
+            verif_reach("div0");
+        }
     } else {
-        bool threw = false;
-        try { (void)gf_div(a, b, exp, log); } catch (const std::invalid_argument&) { threw = true; }
-        verif_assert(threw, "C10: division by zero is an invalid-argument error");
-        verif_reach("div0");
+        verif_note("field kernels gf_mul/gf_div not present with the expected signature: decided at the combine/split level only");
+        verif_reach("div"); verif_reach("div0");
     }
+}
+extern "C" void h_c10_field(unsigned long) {
+    const std::uint8_t a = nondet_u8("a"), b = nondet_u8("b");
+    field_job<std::uint8_t>(a, b);
+}
+// Observable-level arithmetic check: combine() on t shares with symbolic distinct non-zero indices equals Lagrange interpolation at 0
+// over GF(2^8)/0x11D computed by a bitwise reference. Byte position 0 of every share value is symbolic, the other positions are zero.
+// index sets: 0 = 1..9, 1 = {1,2,3,8,9,16,128,254,255} (small/large mixes), 2 = 247..255. ordered != 0: every ordered tuple, else increasing tuples.
+// Share number `sympos` has a symbolic value byte, the others fixed non-zero bytes (the result is GF(2)-linear in each value, so one
+// symbolic value at a time exercises each Lagrange basis factor for all 256 multiplicands).
+extern "C" void h_c10_combine_spec(unsigned long t, unsigned long set_id, unsigned long sympos, unsigned long ordered) {
+    static const std::uint8_t kSets[3][9] = {{1, 2, 3, 4, 5, 6, 7, 8, 9}, {1, 2, 3, 8, 9, 16, 128, 254, 255}, {247, 248, 249, 250, 251, 252, 253, 254, 255}};
+    std::vector<ShamirShare> shares(t);
+    std::uint8_t pos[8];
+    for (std::size_t i = 0; i < t; ++i) {
+        std::uint8_t p = nondet_u8("index_pos");
+        verif_assume(p < 9);
+        for (std::size_t j = 0; j < i; ++j) verif_assume(ordered ? p != pos[j] : p > pos[j]);
+        pos[i] = static_cast<std::uint8_t>(verif_concretize(p, 16));     // every index combination is enumerated (forks)
+        shares[i].index = kSets[set_id][pos[i]];
+        shares[i].value.fill(0);
+        shares[i].value[0] = i == sympos ? nondet_u8("value") : static_cast<std::uint8_t>(0x53 + 0x11 * i);
+    }
+    const auto got = Shamir::combine(shares, static_cast<std::uint8_t>(t));
+    // cross-multiplied Lagrange identity (no inversion needed): got * prod_i D_i == sum_i v_i * N_i * prod_{k != i} D_k,
+    // N_i = prod_{j != i} x_j, D_i = prod_{j != i} (x_j ^ x_i); all D_i are non-zero, and a field has no zero divisors.
+    std::uint8_t N[8], D[8], alld = 1;
+    for (std::size_t i = 0; i < t; ++i) {
+        N[i] = 1; D[i] = 1;
+        for (std::size_t j = 0; j < t; ++j) if (j != i) { N[i] = spec_mul(N[i], shares[j].index); D[i] = spec_mul(D[i], static_cast<std::uint8_t>(shares[j].index ^ shares[i].index)); }
+        alld = spec_mul(alld, D[i]);
+    }
+    std::uint8_t rhs = 0;
+    for (std::size_t i = 0; i < t; ++i) {
+        std::uint8_t term = spec_mul(shares[i].value[0], N[i]);
+        for (std::size_t k = 0; k < t; ++k) if (k != i) term = spec_mul(term, D[k]);
+        rhs ^= term;
+    }
+    const std::uint8_t lhs = spec_mul(got[0], alld);
+    const bool want_ok = lhs == rhs;
+    verif_assert(want_ok, "C10: combine is Lagrange interpolation at zero over GF(2^8) for every set of distinct non-zero indices");
+    for (std::size_t b = 1; b < 32; ++b) verif_assert(got[b] == 0, "C10: byte positions are independent");
+    verif_reach("interpolated");
 }
 // split with threshold t, n shares; position `pos` of the secret and its coefficients are symbolic.
 // Any t shares in any order (symbolic selection, enumerated) must reconstruct the secret.
